@@ -16,7 +16,8 @@ FUNCTIONS = ["peltool.main", "peltool.processId", "peltool.parsePelFromPLID", "p
 HARNESSES = [
     {"fn": "h_plid", "cases": ["", "0x", "0X"], "timeout": {"quick": 90, "thorough": 300}},
     {"fn": "h_bmc", "cases": ["%s:d%d" % (o, d) for o in ("first", "second", "junkfirst") for d in range(1, 11)],
-     "quick_cases": ["first:d1", "second:d1", "first:d10", "junkfirst:d4"], "timeout": {"quick": 90, "thorough": 300}},
+     "quick_cases": ["first:d1", "second:d1", "first:d10", "junkfirst:d4"], "timeout": {"quick": 150, "thorough": 400},
+     "per_path_timeout": 120},     # (z3 needs up to ~30 s for one 10-digit decimal query; the default per-query limit is 15 s)
     {"fn": "h_id", "cases": ["", "0x"], "timeout": {"quick": 90, "thorough": 300}},
     {"fn": "h_src", "cases": ["q2", "q3", "q0:long"], "quick_cases": ["q2"], "timeout": {"quick": 90, "thorough": 300}},
     {"fn": "h_src_exclude", "cases": ["c10"], "timeout": {"quick": 90, "thorough": 300}},
